@@ -19,7 +19,11 @@
                              same_records A B   A and B have the same record keys and value names (as sets)
 
    NOT proved here (partial):
-     * "Pandas and Polars agree": polars_model.py is not modelled; covered by the differential oracle of the harness only.
+     * "Pandas and Polars agree": proved for the three shapes of record map (C17_pandas_polars_agree_...) between the two
+       hand models Model/CData.v (pandas_base.py) and Model/CDataPolars.v (polars_model.py, /repo 18f1d41), on strict
+       specifications and conforming input.  Partial in one respect: dtypes are not modelled, so the theorems say nothing
+       about the inputs on which Polars ITSELF raises (SchemaError when the cells stacked into one block column differ in
+       dtype, TypeError for a mixed-type column); the harness counts those and compares the rest.
      * composition.  For the code since /repo 031522a (compose() passes value_suffix "") it is PROVED, for each shape of
        composite, that compose() returns a map and that this map is sequential application:
        C17_compose_sound_blocks_rows, C17_compose_sound_rows_blocks_partial, C17_compose_sound_blocks_blocks_partial.
@@ -36,7 +40,8 @@
        reported again if it returns). *)
 From Coq Require Import List Bool ZArith QArith String Permutation.
 Import ListNotations.
-From DA Require Import Base.PyRT Base.Val Model.CData Proofs.CDataP4 Proofs.CDataP5 Proofs.CDataP6 Proofs.CDataP7 Proofs.CDataP8 Proofs.CDataEx.
+From DA Require Import Base.PyRT Base.Val Model.CData Model.CDataPolars Proofs.CDataP4 Proofs.CDataP5 Proofs.CDataP6 Proofs.CDataP7 Proofs.CDataP8
+  Proofs.CDataP9 Proofs.CDataEx.
 
 (* rows -> blocks -> rows returns the original table (its row columns) *)
 Theorem C17_inverse_roundtrip_rows : forall S t, strict_spec S = true -> conforming_rows S t = true ->
@@ -71,6 +76,26 @@ Theorem C17_recordmap_inverse_blocks_to_blocks : forall A B t,
     transform m t = Ok y /\ transform m' y = Ok z /\ tbl_eqv z (select_cols (block_columns A) t).
 Proof. exact recordmap_inverse_blocks_to_blocks. Qed.
 Print Assumptions C17_recordmap_inverse_blocks_to_blocks.
+
+(* Pandas and Polars agree on every record transform: transform_pl (Model/CDataPolars.v) is RecordMap.transform on a Polars
+   frame.  Both succeed and return the same table up to row and column order (Polars lists the row-record columns in the
+   order the control keys first appear in the data, Pandas in ascending key order). *)
+Theorem C17_pandas_polars_agree_rows_to_blocks : forall S t, strict_spec S = true -> conforming_rows S t = true ->
+  exists z z', transform (mkmap None (Some S) true) t = Ok z /\ transform_pl (mkmap None (Some S) true) t = Ok z' /\ tbl_eqv z' z.
+Proof. exact agree_rows_to_blocks. Qed.
+Print Assumptions C17_pandas_polars_agree_rows_to_blocks.
+
+Theorem C17_pandas_polars_agree_blocks_to_rows : forall S t, strict_spec S = true -> complete_blocks S t = true ->
+  exists z z', transform (mkmap (Some S) None true) t = Ok z /\ transform_pl (mkmap (Some S) None true) t = Ok z' /\ tbl_eqv z' z.
+Proof. exact agree_blocks_to_rows. Qed.
+Print Assumptions C17_pandas_polars_agree_blocks_to_rows.
+
+Theorem C17_pandas_polars_agree_blocks_to_blocks : forall A B t,
+  strict_spec A = true -> strict_spec B = true -> same_records A B = true -> complete_blocks A t = true ->
+  exists z z', transform (mkmap (Some A) (Some B) true) t = Ok z /\ transform_pl (mkmap (Some A) (Some B) true) t = Ok z' /\
+    tbl_eqv z' z.
+Proof. exact agree_blocks_to_blocks. Qed.
+Print Assumptions C17_pandas_polars_agree_blocks_to_blocks.
 
 (* composition: self.compose(other) applies other first.  (compose sfx self other; a >> b is b.compose(a).)
    For ANY value_suffix and any order of the record keys: a composite_ok map is sequential application (see the header) *)
@@ -188,6 +213,11 @@ Example C17_ex_transform : transform m_rA ex_rows =
   Ok (mktable ["id"; "k"; "v1"; "v2"]%string
         [[n 1 1; s "a"; n 5 2; VNull]; [n 1 1; s "b"; n 3 1; n 5 1]; [n 2 1; s "a"; n 3 2; s "s"]; [n 2 1; s "b"; VNull; n 4 1]]).
 Proof. vm_compute. reflexivity. Qed.
+Example C17_ex_polars_column_order :
+  cols (get_ok (transform_pl (mkmap (Some ex_A) None true) ex_blocks)) = ["id"; "x2"; "y2"; "x1"; "y1"]%string /\
+  cols (get_ok (transform (mkmap (Some ex_A) None true) ex_blocks)) = ["id"; "x1"; "y1"; "x2"; "y2"]%string /\
+  table_eqvb (get_ok (transform_pl (mkmap (Some ex_A) None true) ex_blocks)) (get_ok (transform (mkmap (Some ex_A) None true) ex_blocks)) = true.
+Proof. vm_compute. repeat split; reflexivity. Qed.
 (* with value_suffix "" (compose() since /repo 031522a) compose() builds a composite_ok map for each shape, so the partial
    theorems apply *)
 Example C17_ex_compose_fixed_suffix :
